@@ -108,7 +108,7 @@ class Rejection:
 RELAX_GROUPS = ['live', 'memo', 'value']
 
 
-def validate_executions(execs, wd, relax=(), oracle=False, batch_lines=4000, jobs=12, timeout=900, max_rejections=8):
+def validate_executions(execs, wd, relax=(), oracle=False, batch_lines=4000, jobs=12, timeout=900, max_rejections=8, extra_env=None):
     """Concatenate executions (reset-separated) into batches, validate each batch with one TLC run.
     On rejection: attribute (which relax group makes the line acceptable), record, continue after
     the offending execution.  Returns (n_lines_validated, rejections)."""
@@ -145,7 +145,7 @@ def validate_executions(execs, wd, relax=(), oracle=False, batch_lines=4000, job
                         f.write('{"op":"reset"}\n'); owners.append((None, None))
                     for j, ev in enumerate(e.events):
                         f.write(json.dumps(ev) + '\n'); owners.append((k, j))
-            ok, matched, out = tlc_validate(path, build_of(pending[0].variant), relax, oracle, timeout)
+            ok, matched, out = tlc_validate(path, build_of(pending[0].variant), relax, oracle, timeout, extra_env=extra_env)
             if ok:
                 lines_ok += len(owners)
                 break
@@ -169,7 +169,7 @@ def validate_executions(execs, wd, relax=(), oracle=False, batch_lines=4000, job
                     with open(single, 'w') as f:
                         for ev2 in exe.events[:j + 1]:
                             f.write(json.dumps(ev2) + '\n')
-                    ok2, m2, _ = tlc_validate(single, build_of(exe.variant), tuple(relax) + (g,), oracle, timeout)
+                    ok2, m2, _ = tlc_validate(single, build_of(exe.variant), tuple(relax) + (g,), oracle, timeout, extra_env=extra_env)
                     if ok2 or m2 > j:
                         reason = g
                         break
